@@ -290,6 +290,10 @@ def _twins_problem(lib, refsets, label):
                                              "expected": len(ri)})]
         for j, rs in enumerate(ri):
             ls = set(int(v) for v in li[j])
+            if ls == rs and len(li[j]) != len(rs):
+                return [(f"{label}twin-listed-more-than-once",
+                         {"series": i, "state": j,
+                          "lib": [int(v) for v in li[j]][:20]})]
             if ls != rs:
                 kind = ("spurious" if ls - rs else "missing")
                 if ls - rs and rs - ls:
@@ -530,8 +534,16 @@ def sur_op(ctx, S, s, m, cls, op, seed, rec, key=None):
                     "shape": getattr(out, "shape", None),
                     "expected": (N, n_emb)})]
             # the memoised twin list the walk used must be the reference one
-            ok, tw = ctx.call(s.twins, thr, **kw)
+            # (asked the way the method itself asks - both arguments
+            #  positional, so that the memoised entry is the one returned -
+            #  and the way the caller wrote it)
+            ok, tw = ctx.call(s.twins, thr, mdv)
             if ok:
+                P += _twins_problem(tw, refsets, "twins-used:")
+                if rec:
+                    ctx.count("twins_asked_again_after_the_walk")
+            ok, tw = ctx.call(s.twins, thr, **kw)
+            if ok and not P:
                 P += _twins_problem(tw, refsets, "twins-used:")
             distinct = rows_distinct(np.asarray(data, dtype=float))
             for i in range(N):
